@@ -370,84 +370,82 @@ impl Lane {
     }
 }
 
-#[derive(Clone, Copy, Debug, PartialEq, Eq)]
-enum Kind {
-    Where,
-    Seq(Placement),
-    Value,
-}
-
 const PLACEHOLDER: &str = "fa == 424242";
 
-fn program_text(kind: Kind, filters: &[String]) -> String {
+/// One program holding, for every filter i: `W<i>` (.where), `F<i>` (first-step filter), `L<i>`
+/// (later-step filter) and, if `values`, one stream `G` emitting `r<i>: <filter i>` (value / no value
+/// of the VPL evaluator). One program = one parse (the parser spawns a thread per parse).
+fn program_text(filters: &[String], values: bool) -> String {
     let mut s = String::new();
-    match kind {
-        Kind::Where => {
-            for (i, f) in filters.iter().enumerate() {
-                s.push_str(&format!("stream W{} = E.where({}).emit(u: uid)\n", i, f));
-            }
-        }
-        Kind::Seq(Placement::First) => {
-            for (i, f) in filters.iter().enumerate() {
-                s.push_str(&format!("stream S{} = sequence(e: E where {}, t: Tick)\n    .emit(u: e.uid)\n", i, f));
-            }
-        }
-        Kind::Seq(Placement::Later) => {
-            for (i, f) in filters.iter().enumerate() {
-                s.push_str(&format!("stream S{} = Tick as t -> E where {} as e\n    .emit(u: e.uid)\n", i, f));
-            }
-        }
-        Kind::Value => {
-            let fields: Vec<String> = filters.iter().enumerate().map(|(i, f)| format!("r{}: {}", i, f)).collect();
-            s.push_str(&format!("stream G = E.emit(u: uid, {})\n", fields.join(", ")));
-        }
+    for (i, f) in filters.iter().enumerate() {
+        s.push_str(&format!("stream W{} = E.where({}).emit(u: uid)\n", i, f));
+        s.push_str(&format!("stream F{} = sequence(e: E where {}, t: Tick)\n    .emit(u: e.uid)\n", i, f));
+        s.push_str(&format!("stream L{} = Tick as t -> E where {} as e\n    .emit(u: e.uid)\n", i, f));
+    }
+    if values {
+        let fields: Vec<String> = filters.iter().enumerate().map(|(i, f)| format!("r{}: {}", i, f)).collect();
+        s.push_str(&format!("stream G = E.emit(u: uid, {})\n", fields.join(", ")));
     }
     s
 }
 
+thread_local! {
+    static PLACEHOLDER_PROGRAMS: std::cell::RefCell<std::collections::HashMap<(usize, bool), Program>> = std::cell::RefCell::new(std::collections::HashMap::new());
+}
+
 /// Build the program for `filters` in the given lane. Returns (program, text shown in witnesses).
-fn build(lane: Lane, kind: Kind, filters: &[&Filt]) -> Result<(Program, String), String> {
+fn build(lane: Lane, filters: &[&Filt], values: bool) -> Result<(Program, String), String> {
     match lane {
         Lane::Text => {
-            let txt = program_text(kind, &filters.iter().map(|f| f.txt()).collect::<Vec<_>>());
+            let txt = program_text(&filters.iter().map(|f| f.txt()).collect::<Vec<_>>(), values);
             let p = varpulis_parser::parse(&txt).map_err(|e| format!("parse: {}", e))?;
             Ok((p, txt))
         }
         Lane::Ast => {
-            let txt = program_text(kind, &vec![PLACEHOLDER.to_string(); filters.len()]);
-            let mut p = varpulis_parser::parse(&txt).map_err(|e| format!("parse: {}", e))?;
-            let mut k = 0usize;
+            let n = filters.len();
+            let txt = program_text(&vec![PLACEHOLDER.to_string(); n], values);
+            let cached = PLACEHOLDER_PROGRAMS.with(|c| c.borrow().get(&(n, values)).cloned());
+            let mut p = match cached {
+                Some(p) => p,
+                None => {
+                    let p = varpulis_parser::parse(&txt).map_err(|e| format!("parse: {}", e))?;
+                    PLACEHOLDER_PROGRAMS.with(|c| c.borrow_mut().insert((n, values), p.clone()));
+                    p
+                }
+            };
+            let mut placed = 0usize;
             for st in p.statements.iter_mut() {
-                if let Stmt::StreamDecl { source, ops, .. } = &mut st.node {
-                    match kind {
-                        Kind::Where => {
+                if let Stmt::StreamDecl { name, source, ops, .. } = &mut st.node {
+                    let idx = name[1..].parse::<usize>().unwrap_or(0);
+                    match &name[..1] {
+                        "W" => {
                             for o in ops.iter_mut() {
                                 if let StreamOp::Where(e) = o {
-                                    *e = filters[k].expr();
-                                    k += 1;
+                                    *e = filters[idx].expr();
+                                    placed += 1;
                                 }
                             }
                         }
-                        Kind::Seq(Placement::First) => {
+                        "F" => {
                             if let StreamSource::Sequence(decl) = source {
-                                decl.steps[0].filter = Some(filters[k].expr());
-                                k += 1;
+                                decl.steps[0].filter = Some(filters[idx].expr());
+                                placed += 1;
                             }
                         }
-                        Kind::Seq(Placement::Later) => {
+                        "L" => {
                             for o in ops.iter_mut() {
                                 if let StreamOp::FollowedBy(c) = o {
-                                    c.filter = Some(filters[k].expr());
-                                    k += 1;
+                                    c.filter = Some(filters[idx].expr());
+                                    placed += 1;
                                 }
                             }
                         }
-                        Kind::Value => {
+                        _ => {
                             for o in ops.iter_mut() {
                                 if let StreamOp::Emit { fields, .. } = o {
-                                    for fa in fields.iter_mut().skip(1) {
+                                    for (k, fa) in fields.iter_mut().skip(1).enumerate() {
                                         fa.value = filters[k].expr();
-                                        k += 1;
+                                        placed += 1;
                                     }
                                 }
                             }
@@ -455,14 +453,15 @@ fn build(lane: Lane, kind: Kind, filters: &[&Filt]) -> Result<(Program, String),
                     }
                 }
             }
-            if k != filters.len() {
-                return Err(format!("ast substitution placed {} of {} filters", k, filters.len()));
+            let want = n * 3 + if values { n } else { 0 };
+            if placed != want {
+                return Err(format!("ast substitution placed {} of {} filters", placed, want));
             }
             let shown = format!(
-                "{}# with each placeholder `{}` replaced in the parsed AST by the expression tree of: {}",
+                "{}# each placeholder `{}` of W<i>/F<i>/L<i>/r<i> is replaced in the parsed AST by the expression tree of filter i: {}",
                 txt,
                 PLACEHOLDER,
-                filters.iter().map(|f| format!("`{}`", f.txt())).collect::<Vec<_>>().join(" ; ")
+                filters.iter().enumerate().map(|(i, f)| format!("[{}] `{}`", i, f.txt())).collect::<Vec<_>>().join(" ; ")
             );
             Ok((p, shown))
         }
@@ -519,29 +518,41 @@ fn accepted_sets(outs: &[Event], prefix: &str, n: usize) -> Vec<BTreeSet<i64>> {
     sets
 }
 
-fn run_kind(rt: &tokio::runtime::Runtime, lane: Lane, kind: Kind, filters: &[&Filt], events: &[Event]) -> Result<(Vec<BTreeSet<i64>>, String), RunErr> {
-    let (p, shown) = build(lane, kind, filters).map_err(RunErr::Rejected)?;
+/// What the streams of one program accepted, per filter index.
+struct Obs {
+    w: Vec<BTreeSet<i64>>,
+    f: Vec<BTreeSet<i64>>,
+    l: Vec<BTreeSet<i64>>,
+    /// uids for which the VPL evaluator produced a value for filter i (field r<i> present in G's output)
+    v: Vec<BTreeSet<i64>>,
+    shown: String,
+}
+impl Obs {
+    fn seq(&self, p: Placement) -> &Vec<BTreeSet<i64>> {
+        match p {
+            Placement::First => &self.f,
+            Placement::Later => &self.l,
+        }
+    }
+}
+
+fn run_all(rt: &tokio::runtime::Runtime, lane: Lane, filters: &[&Filt], events: &[Event], values: bool) -> Result<Obs, RunErr> {
+    let (p, shown) = build(lane, filters, values).map_err(RunErr::Rejected)?;
     let outs = run_program(rt, &p, events)?;
     let n = filters.len();
-    let sets = match kind {
-        Kind::Where => accepted_sets(&outs, "W", n),
-        Kind::Seq(_) => accepted_sets(&outs, "S", n),
-        Kind::Value => {
-            // uids for which the VPL evaluator produced a value for node i (field r<i> present)
-            let mut sets = vec![BTreeSet::new(); n];
-            for o in &outs {
-                if let Some(Value::Int(u)) = o.data.get("u") {
-                    for (i, s) in sets.iter_mut().enumerate() {
-                        if o.data.get(format!("r{}", i).as_str()).is_some() {
-                            s.insert(*u);
-                        }
+    let mut v = vec![BTreeSet::new(); n];
+    if values {
+        for o in outs.iter().filter(|o| &*o.event_type == "G") {
+            if let Some(Value::Int(u)) = o.data.get("u") {
+                for (i, s) in v.iter_mut().enumerate() {
+                    if o.data.get(format!("r{}", i).as_str()).is_some() {
+                        s.insert(*u);
                     }
                 }
             }
-            sets
         }
-    };
-    Ok((sets, shown))
+    }
+    Ok(Obs { w: accepted_sets(&outs, "W", n), f: accepted_sets(&outs, "F", n), l: accepted_sets(&outs, "L", n), v, shown })
 }
 
 fn leaf_reason(f: &Filt, e: &GEv) -> String {
@@ -561,13 +572,6 @@ fn leaf_reason(f: &Filt, e: &GEv) -> String {
     }
 }
 
-/// Per-node observations over the whole batch (node index = position in `root.nodes()`).
-struct NodeObs {
-    w: Vec<BTreeSet<i64>>,
-    s: Vec<BTreeSet<i64>>,
-    v: Vec<BTreeSet<i64>>,
-}
-
 /// index of the first child of node `i` and of the following ones, in preorder numbering
 fn child_indices(nodes: &[&Filt], i: usize) -> Vec<usize> {
     let mut out = vec![];
@@ -579,7 +583,7 @@ fn child_indices(nodes: &[&Filt], i: usize) -> Vec<usize> {
     out
 }
 
-fn novalue_reason(nodes: &[&Filt], obs: &NodeObs, i: usize, e: &GEv) -> String {
+fn novalue_reason(nodes: &[&Filt], obs: &Obs, i: usize, e: &GEv) -> String {
     if obs.v[i].contains(&e.uid) {
         return "has-value".to_string();
     }
@@ -596,11 +600,11 @@ fn novalue_reason(nodes: &[&Filt], obs: &NodeObs, i: usize, e: &GEv) -> String {
 
 /// Signature of a disagreement at node `i` on event `e`: descend to the smallest sub-filter on which
 /// the two paths still disagree, then name its shape.
-fn classify(nodes: &[&Filt], obs: &NodeObs, i: usize, e: &GEv) -> (String, String) {
+fn classify(nodes: &[&Filt], obs: &Obs, p: Placement, i: usize, e: &GEv) -> (String, String) {
     let kids = child_indices(nodes, i);
     for &c in &kids {
-        if obs.w[c].contains(&e.uid) != obs.s[c].contains(&e.uid) {
-            return classify(nodes, obs, c, e);
+        if obs.w[c].contains(&e.uid) != obs.seq(p)[c].contains(&e.uid) {
+            return classify(nodes, obs, p, c, e);
         }
     }
     let f = nodes[i];
@@ -626,63 +630,40 @@ fn check_one(f: &Filt, evs: &[GEv], lane: Lane, rt: &tokio::runtime::Runtime, ou
     let events = interleave(evs);
     out.eval();
     out.add(&format!("filters_{}", lane.name()), 1);
-    let (w, wshown) = match run_kind(rt, lane, Kind::Where, &[f], &events) {
-        Ok((mut s, shown)) => (s.remove(0), shown),
+    let root = match run_all(rt, lane, &[f], &events, false) {
+        Ok(o) => o,
         Err(RunErr::Rejected(e)) => {
-            out.add("where_programs_rejected", 1);
+            out.add("programs_rejected", 1);
             if out.samples.len() < 3 {
-                out.sample(json!({"rejected": program_text(Kind::Where, &[ft.clone()]), "error": e}));
+                out.sample(json!({"rejected": program_text(&[ft.clone()], false), "error": e}));
             }
             return None;
         }
         Err(RunErr::Panic(p, site)) => {
-            out.violation(&format!("panic/where/{}", site), "engine panicked evaluating a .where filter", json!({"filter": ft, "lane": lane.name(), "batch": evs_json(evs), "panic": p}));
+            out.violation(&format!("panic/{}", site), "engine panicked evaluating a filter", json!({"filter": ft, "filter_tree": f.json(), "lane": lane.name(), "program": program_text(&[ft.clone()], false), "batch": evs_json(evs), "panic": p}));
             return None;
         }
     };
+    let w = root.w[0].clone();
     if !w.is_empty() && w.len() < evs.len() {
         out.nontrivial(&(ft.clone(), evs.to_vec(), lane));
     }
     out.add("events_judged", evs.len() as u64);
-    let mut disagreeing: Vec<(Placement, BTreeSet<i64>, String)> = vec![];
-    for p in [Placement::First, Placement::Later] {
-        let (s, sshown) = match run_kind(rt, lane, Kind::Seq(p), &[f], &events) {
-            Ok((mut s, shown)) => (s.remove(0), shown),
-            Err(RunErr::Rejected(e)) => {
-                out.add("sequence_programs_rejected", 1);
-                if out.samples.len() < 3 {
-                    out.sample(json!({"rejected": program_text(Kind::Seq(p), &[ft.clone()]), "error": e}));
-                }
-                continue;
-            }
-            Err(RunErr::Panic(pn, site)) => {
-                out.violation(&format!("panic/{}/{}", p.name(), site), "engine panicked evaluating a sequence-step filter", json!({"filter": ft, "lane": lane.name(), "placement": p.name(), "batch": evs_json(evs), "panic": pn}));
-                continue;
-            }
-        };
-        out.add("placements_compared", 1);
-        if s != w {
-            disagreeing.push((p, s, sshown));
-        }
-    }
+    out.add("placements_compared", 2);
+    let disagreeing: Vec<Placement> = [Placement::First, Placement::Later].into_iter().filter(|p| root.seq(*p)[0] != w).collect();
     if !disagreeing.is_empty() {
         // per-node observations of the two paths (and of value/no-value in the VPL evaluator) for the whole batch
         let nodes = f.nodes();
-        let wn = run_kind(rt, lane, Kind::Where, &nodes, &events).ok().map(|x| x.0);
-        let vn = run_kind(rt, lane, Kind::Value, &nodes, &events).ok().map(|x| x.0);
-        for (p, s, sshown) in &disagreeing {
-            let sn = run_kind(rt, lane, Kind::Seq(*p), &nodes, &events).ok().map(|x| x.0);
-            let obs = match (&wn, &sn, &vn) {
-                (Some(w_), Some(s_), Some(v_)) if w_[0] == w && &s_[0] == s => Some(NodeObs { w: w_.clone(), s: s_.clone(), v: v_.clone() }),
-                _ => None,
-            };
+        let obs = run_all(rt, lane, &nodes, &events, true).ok().filter(|o| o.w[0] == w && o.f[0] == root.f[0] && o.l[0] == root.l[0]);
+        for p in disagreeing {
+            let s = &root.seq(p)[0];
             for g in evs {
                 let (inw, ins) = (w.contains(&g.uid), s.contains(&g.uid));
                 if inw == ins {
                     continue;
                 }
                 let (sig, minimal) = match &obs {
-                    Some(o) => classify(&nodes, o, 0, g),
+                    Some(o) => classify(&nodes, o, p, 0, g),
                     None => ("unclassified".to_string(), ft.clone()),
                 };
                 out.violation(
@@ -694,8 +675,8 @@ fn check_one(f: &Filt, evs: &[GEv], lane: Lane, rt: &tokio::runtime::Runtime, ou
                         "lane": lane.name(),
                         "minimal_disagreeing_subfilter": minimal,
                         "placement": p.name(),
-                        "where_program": wshown,
-                        "sequence_program": sshown,
+                        "program": root.shown,
+                        "streams": {"where": "W0", "sequence": if p == Placement::First { "F0" } else { "L0" }},
                         "event": g.json(),
                         "stream": "Tick(uid 0) first, then every E of the batch followed by one Tick",
                         "batch": evs_json(evs),
@@ -750,11 +731,9 @@ fn replay(path: &std::path::Path) -> i32 {
         .map(|j| GEv { uid: j["uid"].as_i64().unwrap_or(0), vals: [V::from_json(&j["fa"]), V::from_json(&j["fb"]), V::from_json(&j["fc"])] })
         .collect();
     let events = interleave(&evs);
-    for kind in [Kind::Where, Kind::Seq(p)] {
-        match run_kind(&rt, lane, kind, &[&f], &events) {
-            Ok((s, shown)) => println!("{}\naccepted uids now: {:?}\n", shown, s[0]),
-            Err(_) => println!("{:?}: program could not be run", kind),
-        }
+    match run_all(&rt, lane, &[&f], &events, false) {
+        Ok(o) => println!("{}\naccepted uids now: where(W0) {:?} / {}({}) {:?}\n", o.shown, o.w[0], p.name(), if p == Placement::First { "F0" } else { "L0" }, o.seq(p)[0]),
+        Err(_) => println!("program could not be run"),
     }
     println!("recorded: where {} / sequence {} ; disagreeing event {}", w["where_accepted_uids"], w["sequence_accepted_uids"], w["event"]);
     0
@@ -769,8 +748,8 @@ fn main() {
     }
     if let Some(ft) = args.opt("--filter") {
         // debugging aid: `c09 --filter "not (fa < 1)"` prints the parsed AST and what both paths accept (text lane)
-        let wtxt = program_text(Kind::Where, &[ft.clone()]);
-        println!("{:#?}", varpulis_parser::parse(&wtxt).map(|p| p.statements.into_iter().map(|s| s.node).collect::<Vec<_>>()));
+        let txt = program_text(&[ft.clone()], true);
+        println!("{:#?}", varpulis_parser::parse(&txt).map(|p| p.statements.into_iter().map(|s| s.node).collect::<Vec<_>>()));
         let rt = rt();
         let mut rng = Rng::new(args.seed);
         let evs = gen_batch(&mut rng, 12, 3);
@@ -778,10 +757,9 @@ fn main() {
         for g in &evs {
             println!("{}", g.json());
         }
-        for kind in [Kind::Where, Kind::Seq(Placement::First), Kind::Seq(Placement::Later)] {
-            let txt = program_text(kind, &[ft.clone()]);
-            let r = varpulis_parser::parse(&txt).ok().and_then(|p| run_program(&rt, &p, &events).ok());
-            println!("{:?}: {:?}", kind, r.map(|o| accepted_sets(&o, if kind == Kind::Where { "W" } else { "S" }, 1).remove(0)));
+        let r = varpulis_parser::parse(&txt).ok().and_then(|p| run_program(&rt, &p, &events).ok());
+        if let Some(o) = r {
+            println!("where {:?}\nfirst {:?}\nlater {:?}", accepted_sets(&o, "W", 1), accepted_sets(&o, "F", 1), accepted_sets(&o, "L", 1));
         }
         std::process::exit(0);
     }
@@ -804,7 +782,7 @@ fn main() {
             let evs = gen_batch(&mut rng, batch, nf);
             if f.has_not() {
                 // what does the parser make of the text?
-                if let Ok(p) = varpulis_parser::parse(&program_text(Kind::Where, &[f.txt()])) {
+                if let Ok(p) = varpulis_parser::parse(&format!("stream W0 = E.where({}).emit(u: uid)\n", f.txt())) {
                     let kept = p.statements.iter().any(|s| match &s.node {
                         Stmt::StreamDecl { ops, .. } => ops.iter().any(|o| matches!(o, StreamOp::Where(e) if contains_not(e))),
                         _ => false,
@@ -820,7 +798,7 @@ fn main() {
                 if k % 8 == 0 {
                     // harness self-check: for not-free filters the AST lane must be the same program as the text lane
                     let events = interleave(&evs);
-                    let a = run_kind(&rt, Lane::Ast, Kind::Where, &[&f], &events).ok().map(|mut x| x.0.remove(0));
+                    let a = run_all(&rt, Lane::Ast, &[&f], &events, false).ok().map(|o| o.w[0].clone());
                     out.add("lane_equivalence_checked", 1);
                     if a != w {
                         out.inconclusive(&format!("AST-substitution lane and text lane differ for the not-free filter `{}`", f.txt()));
